@@ -303,8 +303,10 @@ func main() {
 		if p := guard(func() { cl = csproto.Clone(m) }); p != "" || cl == nil {
 			fail("Clone", s, fmt.Sprintf("returned nil / panicked: %s", p))
 		} else {
-			if reflect.TypeOf(cl) != reflect.TypeOf(m) || !same(m, cl) || !same(s.cls.clone(m), cl) {
-				fail("Clone", s, "clone differs from the original / from the runtime's clone")
+			// the yardstick is the owning runtime's own Clone, not the original: protobuf-go's and gogo's Clone go
+			// through Merge, which drops a proto3 scalar holding -0.0 (it compares with == 0)
+			if reflect.TypeOf(cl) != reflect.TypeOf(m) || !same(s.cls.clone(m), cl) {
+				fail("Clone", s, "clone differs from the runtime's clone")
 			}
 			if reflect.ValueOf(cl).Pointer() == reflect.ValueOf(m).Pointer() {
 				fail("Clone", s, "clone is the same object")
